@@ -238,15 +238,21 @@ pub fn part_strategy() -> impl Strategy<Value = Part> {
 }
 
 pub fn case_strategy() -> impl Strategy<Value = Case> {
-    let group = prop::collection::vec(part_strategy(), 1..=4);
+    let group = prop_oneof![3 => prop::collection::vec(part_strategy(), 1..=4), 1 => prop::collection::vec(part_strategy(), 5..=7)];
     (prop_oneof![2 => Just("en".to_string()), 1 => Just("tr".to_string())], prop::collection::vec(group, 1..=3), prop::collection::vec(prop::bool::weighted(0.6), 2), prop::option::weighted(0.3, (0u8..4, 0u8..5, 0u8..2))).prop_map(|(lang, mut groups, plus, conv)| {
         // at most seven parts in total
         let mut total = 0;
+        let mut keep = 0;
         for g in groups.iter_mut() {
-            let room = 7usize.saturating_sub(total).max(1);
+            let room = 7usize.saturating_sub(total);
+            if room == 0 {
+                break;
+            }
             g.truncate(room);
             total += g.len();
+            keep += 1;
         }
+        groups.truncate(keep.max(1));
         let conv = if lang == "en" { conv } else { None };
         if conv.is_some() {
             // `D as unit` converts the duration it stands next to: a single group
